@@ -170,6 +170,107 @@ func TestSIDWellKnown(t *testing.T) {
 	}, nil)
 }
 
+// ---- a caller's buffer, used for one SID after the other -----------------------------------------
+//
+// "For every well-formed binary SID the string form is ...": the string is a function of the bytes passed
+// in this call. A caller that reads SIDs out of one receive buffer (LDAP attribute values, ACEs walked in
+// place) passes the same backing array again and again with different contents; SIDs of one domain share
+// everything but the last sub-authority. Each call is compared with the own formatter, exactly as in
+// sid-format; a result that is right for a fresh buffer and wrong here depends on an earlier call.
+
+type sidSeqCase struct {
+	SIDs   []sidCase `json:"sids"`
+	Shared []bool    `json:"same_buffer"` // per SID: written over the previous one in the same buffer, or passed in a slice of its own
+}
+
+func checkSIDSeq(c sidSeqCase) []vf.Finding {
+	buf := make([]byte, 8+4*15+8)
+	for i, sc := range c.SIDs {
+		raw := sc.bytes()
+		in := append([]byte{}, raw...)
+		if i < len(c.Shared) && c.Shared[i] {
+			copy(buf, raw)
+			in = buf[:len(raw)]
+		}
+		got := ldap.ParseSIDFromBytes(in)
+		dec, hx := refSID(sc)
+		if got == dec || strings.EqualFold(got, hx) {
+			continue
+		}
+		if fs := checkSID(sc); fs != nil {
+			return fs // wrong on its own: the same finding sid-format reports
+		}
+		prev := "none"
+		if i > 0 {
+			prev, _ = refSID(c.SIDs[i-1])
+		}
+		return []vf.Finding{vf.F("ldap.ParseSIDFromBytes", "result-depends-on-earlier-call", "call %d of %d, %x (same buffer as the call before: %v; SID before: %s): got %q want %q; the same bytes alone give the right string", i+1, len(c.SIDs), raw, i < len(c.Shared) && c.Shared[i], prev, got, dec)}
+	}
+	return nil
+}
+
+func TestSIDBufferReuse(t *testing.T) {
+	s := vf.Begin(t, P, "sid-buffer-reused")
+	vf.Rapid(s, vf.N(30000, 300000), func(t *rapid.T) sidSeqCase {
+		k := rapid.IntRange(2, 8).Draw(t, "calls")
+		fixedCount := rapid.IntRange(0, 2).Draw(t, "sameCount") != 0
+		n0 := rapid.IntRange(0, 15).Draw(t, "count")
+		var c sidSeqCase
+		for i := 0; i < k; i++ {
+			n := n0
+			if !fixedCount {
+				n = rapid.IntRange(0, 15).Draw(t, "count_i")
+			}
+			var sc sidCase
+			mode := rapid.IntRange(0, 3).Draw(t, "relation")
+			if i > 0 && len(c.SIDs[i-1].Subs) == n && mode != 0 {
+				p := c.SIDs[i-1]
+				sc = sidCase{Authority: p.Authority, Subs: append([]uint32{}, p.Subs...)}
+				switch mode {
+				case 1: // same domain, another relative identifier
+					if n > 0 {
+						sc.Subs[n-1] = genSub(t)
+					}
+				case 2: // another domain, the same relative identifier
+					if n > 1 {
+						sc.Subs[rapid.IntRange(0, n-2).Draw(t, "pos")] = genSub(t)
+					} else {
+						sc.Authority = genAuthority(t)
+					}
+				default: // another authority, all sub-authorities as before
+					sc.Authority = genAuthority(t)
+				}
+			} else {
+				sc = sidCase{Authority: genAuthority(t), Subs: make([]uint32, n)}
+				for j := range sc.Subs {
+					sc.Subs[j] = genSub(t)
+				}
+			}
+			c.SIDs = append(c.SIDs, sc)
+			c.Shared = append(c.Shared, rapid.IntRange(0, 3).Draw(t, "shared") != 0)
+		}
+		return c
+	}, func(c sidSeqCase) []vf.Finding {
+		for i := 1; i < len(c.SIDs); i++ {
+			a, b := c.SIDs[i-1], c.SIDs[i]
+			if c.Shared[i] && c.Shared[i-1] && len(a.Subs) == len(b.Subs) && len(a.Subs) >= 2 {
+				s.Class("same-buffer-same-count")
+				break
+			}
+		}
+		return checkSIDSeq(c)
+	}, func(c sidSeqCase) bool {
+		// two consecutive calls on the same buffer with different SIDs of the same length
+		for i := 1; i < len(c.SIDs); i++ {
+			a, b := c.SIDs[i-1], c.SIDs[i]
+			if c.Shared[i] && c.Shared[i-1] && len(a.Subs) == len(b.Subs) && fmt.Sprint(a) != fmt.Sprint(b) {
+				return true
+			}
+		}
+		return false
+	})
+}
+
 // ---- DN -> DNS domain ------------------------------------------------------------
 
 type rdn struct {
